@@ -17,8 +17,10 @@ import NeumannModel.Durable.Model
     resume <snap|none> <hex file>      -> ok <repaired len> <image> | err checksum   (becomes the live store)
     raw_open <hex> / raw_append <maxsize|0> <hex record> / raw_recover <snap|none>   (log of real record bytes)
   live-facing (records are kept with a private encoding; only counts are compared):
-    open <immediate|manual|batched:N> <maxsize|0>
-    put K B E / del K / sync / get K / image
+    open <immediate|manual|batched:N> <maxsize|0> [bloom]     (bloom: `open_durable_with_bloom`)
+    put K B E / del K / sync / get K / exists K / image         (through the Bloom filter when one is on)
+    brecover <snap|none> <hex file>    -> like recover, through a filter rebuilt from scan (`recover_with_bloom`)
+    bresume <snap|none> <hex file>     -> like resume; the live store carries the rebuilt filter
     ckpt_sync / ckpt_snapshot <name> / ckpt_marker <id> / ckpt_truncate   (the four checkpoint steps)
 -/
 open Neumann Neumann.Proto Neumann.FramedLog Neumann.Durable
@@ -45,6 +47,7 @@ structure DState where
   maxSize : Nat := 0
   rotated : Nat := 0
   raw : Wal := Wal.openOn []      -- a log made of the real record bytes (rotation stream)
+  added : Option (List Bytes) := none   -- keys given to the Bloom filter (`none`: no filter)
 
 def crcF : Bytes → Nat := Neumann.Crc32.crc32
 
@@ -97,6 +100,15 @@ def image (s : Store) : String :=
     | none => s!"!{hex k}"
   if items.isEmpty then "-" else " ".intercalate items
 
+/-- the same image through a Bloom filter without false positives (the strictest filter) -/
+def imageB (b : BStore) : String :=
+  let keys := (scanKeys b.store).eraseDups
+  let items := keys.map fun k =>
+    match b.get (fun _ => false) k with
+    | some v => s!"{hex k}={showVal v}"
+    | none => s!"!{hex k}"
+  if items.isEmpty then "-" else " ".intercalate items
+
 def decOf (st : DState) (p : Bytes) : Option Entry :=
   if st.undec.contains p then none else aget st.table p
 
@@ -122,6 +134,35 @@ def logLive (st : DState) (es : List Entry) : DState :=
       { st with sys := { st.sys with wal := Wal.append st.sys.mode (Wal.rotate st.sys.wal).1 rb },
                 rotated := st.rotated + 1 }
     else { st with sys := { st.sys with wal := Wal.append st.sys.mode st.sys.wal rb } }) st
+
+/-- `get` of the live store, through the filter when one is on -/
+def liveGet (st : DState) (k : Bytes) : Option Val :=
+  match st.added with
+  | some a => BStore.get (fun _ => false) ⟨st.sys.mem, a⟩ k
+  | none => get st.sys.mem k
+
+def liveExists (st : DState) (k : Bytes) : Bool :=
+  match st.added with
+  | some a => BStore.exists_ (fun _ => false) ⟨st.sys.mem, a⟩ k
+  | none => exists_ st.sys.mem k
+
+def liveImage (st : DState) : String :=
+  match st.added with
+  | some a => imageB ⟨st.sys.mem, a⟩
+  | none => image st.sys.mem
+
+def resumeWith (st : DState) (sn : String) (b : Bytes) (bloom : Bool) : DState × String :=
+  let snap := if sn = "none" then none else aget st.snaps sn
+  match recover crcF (decOf st) snap b with
+  | .ok mem =>
+      let es := (entriesOf crcF (decOf st) (openRepair b)).1
+      let f := encodeAll crcF (es.map pEnc)
+      let w : Wal := { file := f, syncedLen := f.length, pending := 0 }
+      let sy : Sys := { st.sys with mem := mem, snap := snap, wal := w }
+      let ad : Option (List Bytes) := if bloom then some (scanKeys mem) else none
+      let st2 : DState := { st with sys := sy, rotated := 0, raw := Wal.openOn b, added := ad }
+      (st2, s!"ok {(openRepair b).length} " ++ liveImage st2)
+  | .error _ => (st, "err checksum")
 
 def durStep (st : DState) (line : String) : DState × String :=
   let bad := (st, "bad-op")
@@ -153,16 +194,16 @@ def durStep (st : DState) (line : String) : DState × String :=
            | .error _ => (st, "err checksum"))
       | none => bad
   | ["resume", sn, h] => match unhex h with
+      | some b => resumeWith st sn b false
+      | none => bad
+  | ["bresume", sn, h] => match unhex h with
+      | some b => resumeWith st sn b true
+      | none => bad
+  | ["brecover", sn, h] => match unhex h with
       | some b =>
           let snap := if sn = "none" then none else aget st.snaps sn
-          (match recover crcF (decOf st) snap b with
-           | .ok mem =>
-               let es := (entriesOf crcF (decOf st) (openRepair b)).1
-               let f := encodeAll crcF (es.map pEnc)
-               ({ st with sys := { st.sys with mem := mem, snap := snap,
-                                               wal := { file := f, syncedLen := f.length, pending := 0 } },
-                          rotated := 0, raw := Wal.openOn b },
-                s!"ok {(openRepair b).length} " ++ image mem)
+          (match recoverBloom crcF (decOf st) snap b with
+           | .ok bs => (st, "ok " ++ imageB bs)
            | .error _ => (st, "err checksum"))
       | none => bad
   | ["raw_open", h] => match unhex h with
@@ -181,7 +222,11 @@ def durStep (st : DState) (line : String) : DState × String :=
        | .error _ => (st, "err checksum"))
   | ["open", m, mx] => match parseMode m, mx.toNat? with
       | some mode, some mxs =>
-          ({ st with sys := ⟨mode, Wal.openOn [], Store.empty, none⟩, maxSize := mxs, rotated := 0 }, "ok")
+          ({ st with sys := Sys.fresh mode, maxSize := mxs, rotated := 0, added := none }, "ok")
+      | _, _ => bad
+  | ["open", m, mx, "bloom"] => match parseMode m, mx.toNat? with
+      | some mode, some mxs =>
+          ({ st with sys := Sys.fresh mode, maxSize := mxs, rotated := 0, added := some BStore.empty.added }, "ok")
       | _, _ => bad
   | ["mode", m] => match parseMode m with
       | some mode => ({ st with sys := { st.sys with mode := mode } }, "ok")
@@ -190,7 +235,7 @@ def durStep (st : DState) (line : String) : DState × String :=
       | some k, some b, some e =>
           let r := putDurable st.sys.mem k ⟨b, e⟩
           let st1 := logLive st r.1
-          let st2 := { st1 with sys := { st1.sys with mem := r.2 } }
+          let st2 := { st1 with sys := { st1.sys with mem := r.2 }, added := st1.added.map (k :: ·) }
           (st2, s!"ok {showEntries r.1} {walInfo st2}")
       | _, _, _ => bad
   | ["del", k] => match unhex k with
@@ -204,9 +249,12 @@ def durStep (st : DState) (line : String) : DState × String :=
       let st2 := { st with sys := st.sys.sync }
       (st2, "ok " ++ walInfo st2)
   | ["get", k] => match unhex k with
-      | some k => (st, match get st.sys.mem k with | some v => "some " ++ showVal v | none => "none")
+      | some k => (st, match liveGet st k with | some v => "some " ++ showVal v | none => "none")
       | none => bad
-  | ["image"] => (st, image st.sys.mem)
+  | ["exists", k] => match unhex k with
+      | some k => (st, if liveExists st k then "true" else "false")
+      | none => bad
+  | ["image"] => (st, liveImage st)
   | ["ckpt_sync"] =>
       let st2 := { st with sys := st.sys.ckptSync }
       (st2, "ok " ++ walInfo st2)
